@@ -149,6 +149,18 @@ let handle ws = try (match ws with
   | ["modn"; "inv"; a] ->
     let x = zhex a in let s = zpowmod x (Z.sub nord (z_of_small 2)) nord in
     let i = modn_inv x in if i = s then hexz s else hexz s ^ " IMPLMODEL=" ^ hexz i
+  | "rnd" :: (("range" | "rangefail") as op) :: stream :: n :: rest ->
+    let nd = String.length stream / 64 in
+    let le s = (* 32 bytes little-endian -> Z *)
+      let b = Bytes.create 64 in
+      for i = 0 to 31 do Bytes.blit_string s (2 * (31 - i)) b (2 * i) 2 done; zhex (Bytes.to_string b) in
+    let fail = (match op, rest with "rangefail", [f] -> int_of_string f | _ -> -1) in
+    let draws = List.init nd (fun i -> if i = fail then None else Some (le (String.sub stream (64 * i) 64))) in
+    (match rand_range (zhex n) draws with
+     | RR_ok (r, k) -> Printf.sprintf "1 %d %s" (int_of_nat k) (hexz r)
+     | RR_retry k -> Printf.sprintf "0 %d" (int_of_nat k)
+     | RR_fail k -> Printf.sprintf "-1 %d" (int_of_nat k)
+     | RR_starved -> "MODEL-STARVED")
   | ["t2"; id; hid; k] ->
     let h1 = sm9_hash1_impl (bytes_of_hex id) (n_of_int (int_of_string hid)) in
     (match extract_t2 h1 (zhex k) with Some t -> hexz t | None -> "NONE")
